@@ -63,6 +63,15 @@ def corrupt(data, rng):
                                b'{"k": ' + b'[' * depth + b']' * depth + b'}\n',        # VALID, but deep
                                b'{"k": ' + b'{"a": ' * depth + b'1' + b'}' * depth + b'}\n'])
             return data[:m.start(1)] + str(len(deep)).encode() + data[m.end(1):m.end()] + deep + data[m.end() + int(m.group(1)):]
+    if r < 0.478:
+        # every integer option of ONE header becomes the same huge (or odd) number
+        hs = [m for m in re.finditer(rb'^#[.a-z]+:.*=\d+.*$', data, re.M)]
+        if hs:
+            m = rng.choice(hs)
+            big = rng.choice([b'4294967295', b'4294967296', b'2147483648', b'9223372036854775808', b'18446744073709551616',
+                              b'1' + b'0' * 25, b'65536', b'0'])
+            line = re.sub(rb'=(\d+)(?=,|\r|$)', b'=' + big, m.group(0))
+            return data[:m.start()] + line + data[m.end():]
     if r < 0.485:
         # another section id on one header line: any of the 24 well-formed ids, or a near miss of a name
         hs = [m for m in re.finditer(rb'^#(\.*)([a-z]+):', data, re.M)]
